@@ -1,4 +1,5 @@
 import GambitV.Lemmas.SigFile
+import GambitV.Lemmas.Window
 import GambitV.Props.C20
 
 /-!
@@ -64,6 +65,17 @@ theorem read_write (fast : Bool) (c : SigCollection) : readSigs (writeSigs fast 
   cases fast
   · rw [← write_paths_agree]; exact h
   · exact h
+
+/-- 4a′. A `SignatureArray` that is a window of a larger values array (`from_arrays`; bounds neither start at 0 nor end at the end of
+`values`) is stored as it is — padding and shifted bounds included — and still reads back as exactly the collection written. -/
+theorem read_window (c : SigCollection) (padL padR : List Nat) :
+    readSigs { writeSigs true c with values := (Concat.window padL padR c.sigs).values,
+                                      bounds := (Concat.window padL padR c.sigs).bounds } = .loaded c := by
+  unfold readSigs writeSigs
+  simp only [ne_eq, not_true_eq_false, if_false]
+  have : ({ values := (Concat.window padL padR c.sigs).values, bounds := (Concat.window padL padR c.sigs).bounds } : Concat).toList
+      = c.sigs := window_toList padL padR c.sigs
+  rw [this]
 
 /-- 4b. Field by field: what is stored. -/
 theorem writeSigs_fields (fast : Bool) (c : SigCollection) :
